@@ -319,10 +319,14 @@ func c09Packed(r *ev.Run) int64 {
 		}
 	}
 	r.Completed("P3 IPv6: version x traffic class all 4096 x flow label {0, all-ones, every single bit, two patterns}")
-	for x := uint64(0); x < 1024; x++ {
-		t := corpus.Tcp(3)
-		t.Set("HdrLen", x>>6).Set("Code", x&0x3f)
-		run(t, fmt.Sprintf("tcp offset/flags=%#03x", x))
+	// the data offset is a value the library carries, not one it acts on (it models no options): the
+	// payload is whatever follows the 20 fixed bytes, also when it is long enough to hold "options"
+	for _, dl := range []int{3, 0, 48} {
+		for x := uint64(0); x < 1024; x++ {
+			t := corpus.Tcp(dl)
+			t.Set("HdrLen", x>>6).Set("Code", x&0x3f)
+			run(t, fmt.Sprintf("tcp offset/flags=%#03x payload=%d", x, dl))
+		}
 	}
 	for x := uint64(0); x < 1<<14; x++ {
 		run(corpus.Fragment(17, x>>1, x&1), fmt.Sprintf("fragment offset/M=%#04x", x))
@@ -330,7 +334,7 @@ func c09Packed(r *ev.Run) int64 {
 	for x := uint64(0); x < 16; x++ {
 		run(corpus.Igmp3Query(1, x>>3, x&7), fmt.Sprintf("S/QRV=%#x", x))
 	}
-	r.Completed("P4 TCP data offset x 6 flag bits all 1024; fragment offset x M all 16384; IGMPv3 S x QRV all 16")
+	r.Completed("P4 TCP data offset x 6 flag bits all 1024 x payload {0, 3, 48 bytes}; fragment offset x M all 16384; IGMPv3 S x QRV all 16")
 	return n
 }
 
@@ -421,12 +425,21 @@ func c09(r *ev.Run, replay string) {
 			r.Sample(corpus.Label(n))
 		}
 		c09One(r, n, "shape")
-		ks := map[string]bool{}
-		kindsIn(n, ks)
-		key := fmt.Sprint(sorted2(ks))
-		if !seenBase[key] && len(PktBytes(n)) < 600 {
-			seenBase[key] = true
-			bases = append(bases, n)
+		// a base for the value enumeration: every tree that shows a (kind, field) not seen before
+		// under its outermost header kind (optional members count when they are present)
+		if len(PktBytes(n)) < 600 {
+			fs := map[string]bool{}
+			featuresIn(n, fs)
+			fresh := false
+			for f := range fs {
+				if !seenBase[n.K+"|"+f] {
+					seenBase[n.K+"|"+f] = true
+					fresh = true
+				}
+			}
+			if fresh {
+				bases = append(bases, n)
+			}
 		}
 	})
 	r.Completed("S every header kind standalone; IPv4 x 11 payloads x options 0/4/40; IPv6 x all 16 extension-header chains x 5 final headers; hop-by-hop option lists 0..3; IGMPv3 sources/records 0..3; DHCP option lists <= 3; Ethernet x {untagged, 5 tags incl. VID 0} x 10 inner kinds")
@@ -443,6 +456,7 @@ func c09(r *ev.Run, replay string) {
 	if !r.Expired() {
 		r.Completed(fmt.Sprintf("V every unpacked scalar / fixed-width field of %d base packets varied alone over its value alphabet", len(bases)))
 	}
+	shapes += directRoundTrips(r)
 	packed := c09Packed(r)
 	var sweep int64
 	if r.Thorough() {
